@@ -250,7 +250,157 @@ func runC15(e *Env) {
 		}
 		r.Check(good && flow.IsNilConst(rs[1]), "E3.policyflow", load.FuncName(pf)+"/result", p.Pos(ret.Pos()), "returns the Policy field of the struct the config was unpacked into", "the parser's success return is not the unpacked policy")
 	}
+	checkPolicyUnmodified(e, p, pf, parses[0], al)
 	checkSandboxFlag(e, p, "E3.tsync")
+}
+
+// writesThrough lists the instructions that write (or may write) memory reachable from address a: stores through it or a
+// sub-address, and calls that receive it or a sub-address (except those for which allowed returns true).
+func writesThrough(a ssa.Value, allowed func(ssa.CallInstruction) bool, depth int) []ssa.Instruction {
+	var out []ssa.Instruction
+	if depth > 5 || a.Referrers() == nil {
+		return nil
+	}
+	for _, ref := range *a.Referrers() {
+		switch x := ref.(type) {
+		case *ssa.Store:
+			if x.Addr == a {
+				out = append(out, x)
+			}
+		case *ssa.FieldAddr:
+			out = append(out, writesThrough(x, allowed, depth+1)...)
+		case *ssa.IndexAddr:
+			out = append(out, writesThrough(x, allowed, depth+1)...)
+		case *ssa.MakeInterface:
+			out = append(out, writesThrough(x, allowed, depth+1)...)
+		case *ssa.Slice:
+			out = append(out, writesThrough(x, allowed, depth+1)...)
+		case ssa.CallInstruction:
+			if allowed != nil && allowed(x) {
+				continue
+			}
+			out = append(out, x)
+		case *ssa.MapUpdate:
+			out = append(out, x)
+		case *ssa.UnOp:
+			// a loaded slice/map/pointer field: writes through the loaded reference also change the policy
+			if x.Op == token.MUL {
+				switch x.Type().Underlying().(type) {
+				case *types.Slice, *types.Map, *types.Pointer:
+					out = append(out, writesThrough(x, allowed, depth+1)...)
+				}
+			}
+		}
+	}
+	return out
+}
+
+// checkPolicyUnmodified (E3.policyflow/unmodified): between the configuration library filling the policy and
+// seccomp.LoadFilter receiving it, nothing writes to it - neither in the parser after Unpack, nor in main through the
+// returned pointer, nor into the Policy field of the Filter literal.
+func checkPolicyUnmodified(e *Env, p *load.Program, pf *ssa.Function, parse *ssa.Call, filterAl *ssa.Alloc) {
+	r := e.R
+	n := 0
+	isUnpack := func(c ssa.CallInstruction) bool {
+		cal := c.Common().StaticCallee()
+		if cal != nil && cal.Name() == "Unpack" {
+			return true
+		}
+		return c.Common().IsInvoke() && c.Common().Method.Name() == "Unpack"
+	}
+	readOnly := func(c ssa.CallInstruction) bool {
+		if isUnpack(c) {
+			return true
+		}
+		// methods of the library that only read the policy (C13 shows Validate/Dump/Assemble leave caller memory alone)
+		return flow.CalleeIs(c, load.PkgRoot, "Policy.Validate") || flow.CalleeIs(c, load.PkgRoot, "Policy.Dump")
+	}
+	// (1) the parser: the struct the configuration is unpacked into
+	for _, b := range pf.Blocks {
+		for _, in := range b.Instrs {
+			al, ok := in.(*ssa.Alloc)
+			if !ok {
+				continue
+			}
+			st, ok := al.Type().Underlying().(*types.Pointer).Elem().Underlying().(*types.Struct)
+			if !ok {
+				continue
+			}
+			hasPolicy := false
+			for i := 0; i < st.NumFields(); i++ {
+				if isNamed(st.Field(i).Type(), load.PkgRoot, "Policy") {
+					hasPolicy = true
+				}
+			}
+			if !hasPolicy {
+				continue
+			}
+			n++
+			for _, w := range writesThrough(al, readOnly, 0) {
+				r.Bad("E3.policyflow", load.FuncName(pf)+"/policy-modified-after-unpack", p.Pos(w.Pos()),
+					"the parsed policy is written to after the configuration library filled it (by "+describeInstr(w)+"): the filter that is loaded is not the policy of the file, so the target does not observe exactly the policy's decisions")
+			}
+		}
+	}
+	// (2) main: the returned pointer is only dereferenced (directly or in a helper that builds the Filter)
+	if ptr := flow.ResultN(parse, 0); ptr != nil {
+		n++
+		derefOnly := func(c ssa.CallInstruction) bool {
+			cal := flow.Callee(c)
+			if cal == nil || cal.Pkg == nil || cal.Pkg.Pkg.Path() != load.PkgSandbox || len(cal.Blocks) == 0 {
+				return false
+			}
+			for k, a := range c.Common().Args {
+				if a != ptr || k >= len(cal.Params) {
+					continue
+				}
+				if len(writesThrough(cal.Params[k], nil, 0)) > 0 {
+					return false
+				}
+			}
+			return true
+		}
+		for _, w := range writesThrough(ptr, derefOnly, 0) {
+			r.Bad("E3.policyflow", "sandbox.main/policy-modified-before-load", p.Pos(w.Pos()),
+				"the parsed policy is written to between parsing and loading (by "+describeInstr(w)+")")
+		}
+	}
+	// (3) the Filter literal's Policy field is stored once and not touched afterwards
+	if filterAl != nil {
+		st := filterAl.Type().Underlying().(*types.Pointer).Elem().Underlying().(*types.Struct)
+		for _, ref := range *filterAl.Referrers() {
+			fa, ok := ref.(*ssa.FieldAddr)
+			if !ok || st.Field(fa.Field).Name() != "Policy" {
+				continue
+			}
+			n++
+			stores := 0
+			for _, w := range writesThrough(fa, nil, 0) {
+				if s, ok := w.(*ssa.Store); ok && s.Addr == ssa.Value(fa) {
+					stores++
+					continue
+				}
+				r.Bad("E3.policyflow", "sandbox.main/filter-policy-modified", p.Pos(w.Pos()), "the Policy of the Filter literal is modified after it was set (by "+describeInstr(w)+")")
+			}
+			if stores > 1 {
+				r.Bad("E3.policyflow", "sandbox.main/filter-policy-modified", p.Pos(fa.Pos()), "the Policy of the Filter literal is assigned more than once")
+			}
+		}
+	}
+	if !r.HasBad("E3.policyflow") {
+		r.OK("E3.policyflow", "sandbox/policy-unmodified", p.Pos(pf.Pos()), "nothing writes to the policy between the configuration library filling it and LoadFilter receiving it")
+	}
+	r.Floor("E3.policyflow(policy holders examined)", n, 2)
+}
+
+func describeInstr(in ssa.Instruction) string {
+	switch x := in.(type) {
+	case *ssa.Store:
+		return "a store"
+	case ssa.CallInstruction:
+		return "a call to " + calleeNameCI(x)
+	}
+	return fmt.Sprintf("%T", in)
 }
 
 // checkExitRegion: every path of the failure region ends in os.Exit(non-zero) (or another
